@@ -1,15 +1,28 @@
 ----------------------------- MODULE Trace_C15 -----------------------------
+(* Judge for C15: the diagnostics of the real derive, mapped to (class/argument) keys by key phrases, against Faults(in).
+   complete: every broken rule is reported;  sound: nothing is reported that no rule explains;  accept iff no rule is broken. *)
 EXTENDS O2OValidate, Json, IOUtils
 Rec == ndJsonDeserialize(IOEnv.TRACE)
 VARIABLE l
-ObsClasses(r) == {r.classes[i] : i \in DOMAIN r.classes}
-ExpClasses(in) == {x.c \o "/" \o x.a : x \in Faults(in)}
-\* complete (every fault reported), sound (nothing else reported by these rule classes), and accept iff no fault
-Conforms(r) == LET e == ExpClasses(r.in) IN
-               IF e = {} THEN r.verdict = "ok" ELSE r.verdict = "err" /\ ObsClasses(r) = e
+ObsKeys(r) == {r.classes[i] : i \in DOMAIN r.classes}
+ClassOf(key) == key   \* keys are "class/arg"
+Symptom(r) ==
+  LET e == FaultKeys(r.in)  o == ObsKeys(r) IN
+  IF r.verdict = "panic" THEN "-"                       \* a panic is C16's violation (the C16 check replays this very stream); nothing to compare here
+  ELSE IF e = {} THEN (IF r.verdict = "ok" THEN "-" ELSE "valid_input_rejected")
+  ELSE IF r.verdict # "err" THEN "faulty_input_accepted"
+  ELSE IF \E k \in e : k \notin o THEN "diagnostic_missing"
+  ELSE IF \E k \in o : k \notin e THEN "spurious_diagnostic"
+  ELSE IF Len(r.other) > 0 THEN "unclassified_diagnostic"
+  ELSE "-"
+Missing(r) == FaultKeys(r.in) \ ObsKeys(r)
+Spurious(r) == ObsKeys(r) \ FaultKeys(r.in)
 Init == l = 1
 Consume == /\ l <= Len(Rec)
-           /\ (IF Conforms(Rec[l]) THEN TRUE ELSE PrintT(<<"MISMATCH", l, Rec[l].id, Rec[l].src, "expected", ExpClasses(Rec[l].in), "observed", Rec[l].verdict, ObsClasses(Rec[l]), Rec[l].other>>))
+           /\ (IF Symptom(Rec[l]) = "-" THEN TRUE
+               ELSE PrintT(<<"MISMATCH", ToJson([id |-> Rec[l].id, symptom |-> Symptom(Rec[l]), missing |-> Missing(Rec[l]), spurious |-> Spurious(Rec[l]),
+                                                 expected |-> FaultKeys(Rec[l].in), observed |-> ObsKeys(Rec[l]), other |-> Rec[l].other, verdict |-> Rec[l].verdict,
+                                                 dt |-> Rec[l].in.dt, shape |-> Rec[l].in.shape])>>))
            /\ l' = l + 1
 Spec == Init /\ [][Consume]_l
 Accepted == TLCGet("stats").diameter - 1 = Len(Rec)
